@@ -1,5 +1,5 @@
-(* Png.v -- src/filters/png.rs: paeth_predict, decode_row, decode_frame (after the Average repair,
-   commit f51f21b).  Definitions only.
+(* Png.v -- src/filters/png.rs: paeth_predict, decode_row, decode_frame (after the Average repair f51f21b
+   and the geometry repairs 686bd3f, 22cc8e0).  Definitions only.
 
    decode_row(filter, bpp, previous, current) works in place, left to right:
      let bpp = bpp.min(len);
@@ -75,14 +75,13 @@ Definition decode_row (t : ftype) (bpp : N) (prev cur : bytes) : res bytes :=
   else Ok (row_go t (N.to_nat (N.min bpp (N.of_nat (length cur)))) [] [] prev cur).
 
 Definition USIZE_MAX : N := 18446744073709551615.
-(* try_reserve(bytes_per_row) reports an error instead of aborting.  It certainly fails with capacity overflow
-   above isize::MAX and with an allocation error from 2^47 bytes on (the whole x86-64 user address space);
-   between about 1 MB and 2^47 the outcome depends on the machine and is neither modelled nor generated. *)
-Definition ALLOC_FAILS_FROM : N := 140737488355328.
 
-(* decode_frame: while pos < len { filter byte; read_exact(bytes_per_row) (UnexpectedEof when short);
-   decode_row; append; swap }.  [prev] = None stands for the initial all-zero row, materialised only when
-   a row is really decoded (the Rust code allocates it up front; allocation is not observable here). *)
+(* decode_frame (after 686bd3f / 22cc8e0): bytes_per_row = bpp.checked_mul(ppr) or an InvalidInput error;
+   the two row buffers have min(bytes_per_row, content.len()) bytes, so a row longer than the data makes
+   read_exact fail with UnexpectedEof exactly as a short last row does;
+   while pos < len { filter byte; read_exact(row) (UnexpectedEof when short); decode_row; append; swap }.
+   [prev] = None stands for the initial all-zero row, materialised only when a row is really decoded (then
+   bytes_per_row <= content.len(), so the buffers have bytes_per_row bytes). *)
 Fixpoint frame_go (fuel : nat) (bpp bpr : N) (prev : option bytes) (content : bytes) : res bytes :=
   match content with
   | [] => Ok []
@@ -109,6 +108,5 @@ Fixpoint frame_go (fuel : nat) (bpp bpr : N) (prev : option bytes) (content : by
 
 Definition decode_frame (content : bytes) (bpp ppr : N) : res bytes :=
   let bpr := (bpp * ppr)%N in
-  if (USIZE_MAX <? bpr)%N then Panic                       (* usize multiplication overflow *)
-  else if (ALLOC_FAILS_FROM <=? bpr)%N then Err EIoOther    (* try_reserve fails *)
+  if (USIZE_MAX <? bpr)%N then Err EIoOther                (* checked_mul fails: InvalidInput *)
   else frame_go (length content) bpp bpr None content.
